@@ -187,7 +187,11 @@ where
     /// ```
     pub fn dispatch(&self, input: I) {
         if !is_suppressing_resource_load() {
-            self.inner.try_with_value(|inner| inner.dispatch(input));
+            // cloned out of the arena first: dispatching notifies the subscribers of
+            // `submissions()` synchronously, and they must not find the arena locked
+            if let Some(inner) = self.inner.try_get_value() {
+                inner.dispatch(input);
+            }
         }
     }
 
@@ -230,8 +234,9 @@ where
     /// # });
     /// ```
     pub fn dispatch_sync(&self, value: O) {
-        self.inner
-            .try_with_value(|inner| inner.dispatch_sync(value));
+        if let Some(inner) = self.inner.try_get_value() {
+            inner.dispatch_sync(value);
+        }
     }
 }
 
